@@ -414,6 +414,14 @@ fn j2oas_schema_object(
         None => None,
     };
 
+    // OpenAPI 3.0 has no `const`; express it as an `enum` with one value.
+    let const_as_enum = match (&obj.enum_values, &obj.const_value) {
+        (None, Some(value)) => Some(vec![value.clone()]),
+        _ => None,
+    };
+    let enum_values =
+        if const_as_enum.is_some() { &const_as_enum } else { &obj.enum_values };
+
     let kind = match (ty, &obj.subschemas) {
         (Some(schemars::schema::InstanceType::Null), None) => {
             openapiv3::SchemaKind::Type(openapiv3::Type::String(
@@ -424,8 +432,7 @@ fn j2oas_schema_object(
             ))
         }
         (Some(schemars::schema::InstanceType::Boolean), None) => {
-            let enumeration = obj
-                .enum_values
+            let enumeration = enum_values
                 .as_ref()
                 .map(|values| {
                     values
@@ -451,13 +458,13 @@ fn j2oas_schema_object(
             j2oas_array(&obj.array)
         }
         (Some(schemars::schema::InstanceType::Number), None) => {
-            j2oas_number(&obj.format, &obj.number, &obj.enum_values)
+            j2oas_number(&obj.format, &obj.number, enum_values)
         }
         (Some(schemars::schema::InstanceType::String), None) => {
-            j2oas_string(&obj.format, &obj.string, &obj.enum_values)
+            j2oas_string(&obj.format, &obj.string, enum_values)
         }
         (Some(schemars::schema::InstanceType::Integer), None) => {
-            j2oas_integer(&obj.format, &obj.number, &obj.enum_values)
+            j2oas_integer(&obj.format, &obj.number, enum_values)
         }
         (None, Some(subschema)) => j2oas_subschemas(subschema),
         (None, None) => {
